@@ -170,7 +170,8 @@ def build(recipe) -> World:
         w.reg(_px(A, mode, "fresh", 3, 3))
     else:
         raise ValueError(shape)
-    for d in w.docs():           # building is not part of the history
+    for d in w.docs():           # building is not part of the history: records rebuilt, flag reset
+        w.objs[d]._update_record()
         w.objs[d]._updated_layers = False
         w.objs[d]._bbox = None
     for g in w.groups():
